@@ -100,6 +100,7 @@ def _impl(tier, seed, search):
     Tsym = sp.Matrix(4, 4, ms); 
     def Tmat(*p): return np.array(p, dtype=float).reshape(4, 4)
     Tobj = np.array(Tsym.tolist(), dtype=object)
+    plain = sp.Symbol('q')        # no assumptions: SymPy cannot decide whether it is real
     ENT = {
         'rotx': (lambda: b.rotx(th), lambda t: b.rotx(t), [th]), 'roty': (lambda: b.roty(th), lambda t: b.roty(t), [th]), 'rotz': (lambda: b.rotz(th), lambda t: b.rotz(t), [th]),
         'trotx': (lambda: b.trotx(th), lambda t: b.trotx(t), [th]), 'troty': (lambda: b.troty(th), lambda t: b.troty(t), [th]), 'trotz': (lambda: b.trotz(th), lambda t: b.trotz(t), [th]),
@@ -199,6 +200,15 @@ def _impl(tier, seed, search):
         'SO3([X1,X2])[0]': (lambda: SO3([SO3.Rx(th), SO3.Ry(a1)]).data[0], lambda t, u: SO3([SO3.Rx(t), SO3.Ry(u)]).data[0], [th, a1]),
         'SE3(X)': (lambda: SE3(SE3.Rx(th) * SE3(x, y, z)), lambda t, x_, y_, z_: SE3(SE3.Rx(t) * SE3(x_, y_, z_)), [th, x, y, z]),
         'SE3.append': (lambda: (lambda X_: (X_.append(SE3(x, y, z)), X_.data[1])[1])(SE3.Rx(th)), lambda t, x_, y_, z_: (lambda X_: (X_.append(SE3(x_, y_, z_)), X_.data[1])[1])(SE3.Rx(t)), [th, x, y, z]),
+        # symbols whose realness SymPy leaves undecided (plain sympy.symbols('q')), and expressions of them
+        'rotx(plain symbol)': (lambda: b.rotx(plain), lambda t: b.rotx(t), [plain]), 'trotz(2*plain)': (lambda: b.trotz(2 * plain), lambda t: b.trotz(2 * t), [plain]),
+        'SE3.Rx(plain symbol)': (lambda: SE3.Rx(plain), lambda t: SE3.Rx(t), [plain]), 'eul2r(plain, a, plain/2)': (lambda: b.eul2r(plain, a2, plain / 2), lambda t, q: b.eul2r(t, q, t / 2), [plain, a2]),
+        'SO3.Ry(plain+a)': (lambda: SO3.Ry(plain + a1), lambda t, u: SO3.Ry(t + u), [plain, a1]), 'transl(plain,y,z)': (lambda: b.transl(plain, y, z), lambda t, y_, z_: b.transl(t, y_, z_), [plain, y, z]),
+        # several symbolic poses in one object acting on a numeric vector, a numeric matrix of points, a tuple
+        '(SE3.Rx([a,b],t)*[1,2,3])[:,1]': (lambda: np.asarray(SE3.Rx([th, a1], t=[x, y, z]) * [1, 2, 3], dtype=object)[:, 1], lambda t, u, x_, y_, z_: (SE3.Rx(u, t=[x_, y_, z_]) * np.array([1.0, 2, 3])).flatten(), [th, a1, x, y, z]),
+        '(SO3.Rz([a,b])*array)[:,0]': (lambda: np.asarray(SO3.Rz([th, a1]) * np.array([1.0, 2.0, 3.0]), dtype=object)[:, 0], lambda t, u: (SO3.Rz(t) * np.array([1.0, 2, 3])).flatten(), [th, a1]),
+        '(SE3.Ry([0.3,a])*(1,2,3))[:,1]': (lambda: np.asarray(SE3.Ry([0.3, th]) * (1, 2, 3), dtype=object)[:, 1], lambda t: (SE3.Ry(t) * np.array([1.0, 2, 3])).flatten(), [th]),
+        'trinv2(trot2(a,t=[x,y]))': (lambda: b.trinv2(b.trot2(th, t=[x, y])), lambda t, x_, y_: b.trinv2(b.trot2(t, t=[x_, y_])), [th, x, y]),
         'Twist3.Rx': (lambda: Twist3.Rx([th]).S, lambda t: Twist3.Rx([t]).S, [th]), 'Twist3.Ry': (lambda: Twist3.Ry([th]).S, lambda t: Twist3.Ry([t]).S, [th]), 'Twist3.Rz': (lambda: Twist3.Rz([th]).S, lambda t: Twist3.Rz([t]).S, [th]),
     }
     for name, (symcall, numcall, syms) in ENT.items():
